@@ -488,3 +488,101 @@ Qed.
 (** the first line of the script *)
 Lemma hash_sem cmd x : no_nl x = true -> line_sem cmd (append "# " x) None.
 Proof. intros H. split; [exact H|]. split; [|exact I]. intros rest. reflexivity. Qed.
+
+Lemma header_main_sem cmd :
+  name_ok cmd -> line_sem cmd (append "_" (append cmd " () {")) (Some (SFunc (append "_" cmd))).
+Proof.
+  intros Hc. pose proof (header_sem cmd EmptyString Hc eq_refl eq_refl eq_refl) as H.
+  cbn [append] in H. rewrite QuoteRT.append_nil_r in H. exact H.
+Qed.
+
+(** ** the units of the completion function [_<cmd>] *)
+Section MainUnits.
+Variable command : string.
+Hypothesis Hc : name_ok command.
+Let Hnl := name_ok_no_nl _ Hc.
+
+Definition U_head := write_completion_script_0.
+Definition U_main_a := write_completion_script_2 ++ write_completion_script_3 ++ seg_nl.
+Definition U_main13 := write_completion_script_13 ++ seg_nl.
+Definition U_main14 := drop_nl write_completion_script_14 ++ seg_nl.
+Definition U_main15 := drop_nl write_completion_script_15 ++ seg_nl.
+Definition U_main16 := drop_nl write_completion_script_16.
+Definition U_main17 := write_completion_script_17.
+
+Lemma U_head_scans : unit_scans command U_head [].
+Proof. unit_tac command Hc Hnl idtac. Qed.
+
+Lemma U_main_a_scans : unit_scans command U_main_a [SFunc (append "_" command)].
+Proof.
+  unit_tac command Hc Hnl ltac:(eapply Forall2_cons; [apply (header_main_sem command Hc)|]).
+Qed.
+
+Definition env_state (start : N) : list (string * string) := ("starting_state", sN start) :: env_cmd command.
+
+Lemma U_main6_scans start :
+  unit_scans_env command (env_state start) write_completion_script_6 [SScalar "state" start; SScalar "word_index" 1].
+Proof.
+  unit_tac command Hc Hnl
+    ltac:(eapply Forall2_cons; [closed_line|];
+          eapply Forall2_cons; [apply (scalar_sem command "state" start); auto|]).
+Qed.
+
+Lemma U_main7_scans : unit_scans command write_completion_script_7 [].
+Proof. unit_tac command Hc Hnl idtac. Qed.
+Lemma U_main8_scans : unit_scans command write_completion_script_8 [].
+Proof. unit_tac command Hc Hnl idtac. Qed.
+Lemma U_main9_scans : unit_scans command write_completion_script_9 [].
+Proof. unit_tac command Hc Hnl idtac. Qed.
+Lemma U_main10_scans : unit_scans command write_completion_script_10 [].
+Proof. unit_tac command Hc Hnl idtac. Qed.
+
+Definition env_max (m : N) : list (string * string) := ("max_fallback_level", sN m) :: env_cmd command.
+
+Ltac unit_open :=
+  unfold unit_scans, unit_scans_env; intros k rest;
+  rewrite render_region by (vm_compute; reflexivity);
+  match goal with |- context [render_lines ?E ?R] =>
+    replace (List.length (region_lines R)) with (List.length (render_lines E R)) by apply map_length
+  end.
+Ltac unit_lines :=
+  unfold render_lines;
+  match goal with |- context [region_lines ?R] => region_list R end;
+  cbn [map].
+Ltac unit_close :=
+  match goal with |- _ = _ ++ ?T => generalize T; intro end; vm_compute; reflexivity.
+
+Lemma U_main13_scans m :
+  unit_scans_env command (env_max m) U_main13
+    [SLits "candidates" []; SLits "matches" []; SScalar "max_fallback_level" m].
+Proof.
+  unit_open. erewrite scan_lines_sem.
+  2:{ unit_lines.
+      repeat (eapply Forall2_cons; [first [closed_line | deep_line Hnl]|]).
+      eapply Forall2_cons.
+      { unfold env_max; cbn [render assoc String.eqb Ascii.eqb Bool.eqb env_cmd].
+        apply (scalar_sem command "max_fallback_level" m); auto. }
+      repeat (eapply Forall2_cons; [first [closed_line | deep_line Hnl]|]).
+      apply Forall2_nil. }
+  unit_close.
+Qed.
+
+Lemma U_main17_scans :
+  unit_scans command U_main17 [SEnd; SRegister [append "_" command; command]].
+Proof.
+  unit_open. erewrite scan_lines_sem.
+  2:{ unit_lines.
+      repeat (eapply Forall2_cons; [first [closed_line | deep_line Hnl]|]).
+      eapply Forall2_cons.
+      { cbn [render assoc String.eqb Ascii.eqb Bool.eqb env_cmd]. apply (register_sem command Hc). }
+      apply Forall2_nil. }
+  unit_close.
+Qed.
+
+Lemma U_main14_scans : unit_scans command U_main14 [].
+Proof. unit_tac command Hc Hnl idtac. Qed.
+Lemma U_main15_scans : unit_scans command U_main15 [].
+Proof. unit_tac command Hc Hnl idtac. Qed.
+Lemma U_main16_scans : unit_scans command U_main16 [].
+Proof. unit_tac command Hc Hnl idtac. Qed.
+End MainUnits.
